@@ -1,8 +1,46 @@
-(* C08 — interim *)
-From Verif Require Import Base GenThresholds Codebase Json Writer.
+(* C08 — the report document is always valid JSON and round-trips losslessly.
+   Statements only; proofs in Report/JsonProofs.v, Report/WriterProofs.v over the
+   models Report/Json.v (layout of ReportWriter, token-level parser) and
+   Report/Writer.v (to_json, from_json).  Strings are abstract tokens rendered by
+   the json.dumps oracle; the writer model is compared with the implementation's
+   text byte for byte on every run. *)
+From Verif Require Import Base GenThresholds Codebase Json Writer JsonProofs WriterProofs.
 Open Scope Z_scope.
-Example C08_ex_parse :
-  match build [47] [] with
-  | OK cb => parse (to_json true (mkReport (Some [49]) [117] [116] None cb)) = Some (erase (to_doc (mkReport (Some [49]) [117] [116] None cb)))
-  | Err _ => False end.
-Proof. vm_compute. reflexivity. Qed.
+
+(* every document is well-formed, in both layouts, and both parse to the same value *)
+Theorem C08_valid : forall (pretty : bool) (r : report), parse (to_json pretty r) = Some (erase (to_doc r)).
+Proof. intros pretty r. exact (parse_render pretty (to_doc r)). Qed.
+Theorem C08_pretty_compact_same : forall r, parse (to_json true r) = parse (to_json false r).
+Proof. intros r. exact (pretty_compact_same (to_doc r)). Qed.
+Theorem C08_layout_is_blanks : forall b d s, In (TWs s) (render b d) -> Forall (fun c => c = 32 \/ c = 10) s.
+Proof. exact render_ws_only_blanks. Qed.
+
+(* reading the written document back: same version, identifier, repository, and the same codebase
+   (files in order with checksum, language, line total, measurements; totals; folder profiles) *)
+Theorem C08_roundtrip : forall root es cb r,
+  build root es = OK cb ->
+  Forall (fun e => e = mk_entry (e_path e) (e_checksum e) (e_language e) (e_loc e) (e_measurements e)) es ->
+  NoDup (map e_path es) -> r_codebase r = cb ->
+  forall b v, parse (to_json b r) = Some v ->
+  from_json v = OK (mkReport (r_version r) (r_uuid r) [] (r_repository r) cb).
+Proof. exact WriterProofs.C08_roundtrip. Qed.
+
+(* writing the re-read report reproduces the document up to its timestamp (any layouts) *)
+Theorem C08_rewrite : forall root es cb r,
+  build root es = OK cb ->
+  Forall (fun e => e = mk_entry (e_path e) (e_checksum e) (e_language e) (e_loc e) (e_measurements e)) es ->
+  NoDup (map e_path es) -> r_codebase r = cb ->
+  forall b v r', parse (to_json b r) = Some v -> from_json v = OK r' ->
+  forall b', to_json b' (with_timestamp (r_timestamp r) r') = to_json b' r.
+Proof. exact WriterProofs.C08_rewrite. Qed.
+
+(* the stored version is what get_report_version returns (presence / absence included) *)
+Theorem C08_version : forall r, get_report_version (erase (to_doc r)) = OK (r_version r).
+Proof. exact WriterProofs.C08_version. Qed.
+
+Print Assumptions C08_valid.
+Print Assumptions C08_pretty_compact_same.
+Print Assumptions C08_layout_is_blanks.
+Print Assumptions C08_roundtrip.
+Print Assumptions C08_rewrite.
+Print Assumptions C08_version.
